@@ -120,6 +120,14 @@ pub enum Op {
     Clone(u8),
     Fresh,
     Modules,
+    /// `nth(k)` on iterator i
+    Nth(u8, u8),
+    /// `clone().count()` of iterator i
+    Count(u8),
+    /// `clone().last()` of iterator i
+    Last(u8),
+    /// `module_tags().nth(k)` / `.count()`
+    ModulesNth(u8),
 }
 
 #[derive(Clone, Debug, Serialize, Deserialize)]
@@ -194,6 +202,88 @@ fn eval_hist(c: &HistCase, obs: &mut Obs) -> Result<(), String> {
                     }
                 }
             }
+            Op::Nth(i, k) => {
+                if real.is_empty() {
+                    continue;
+                }
+                let i = *i as usize % real.len();
+                let k = (*k % 5) as usize;
+                let (Some(r), Some(m)) = (real[i].as_mut(), model[i]) else { continue };
+                let got = mb2_model::panics::catch(|| r.nth(k).map(|t| t as *const _ as *const u8 as usize - base));
+                let target = m + k;
+                // the model panics if the walk's panic point lies at or before the target
+                let must_panic = w.panic_at.map_or(false, |p| p >= m && p <= target);
+                if must_panic {
+                    if got.is_some() {
+                        return Err(format!("step {step}: iterator {i}: nth({k}) from index {m} must end in a controlled panic (walk panics at {:?}), got {got:?}", w.panic_at));
+                    }
+                    model[i] = None;
+                    real[i] = None;
+                } else if target < w.items.len() {
+                    if got != Some(Some(w.items[target].off)) {
+                        return Err(format!("step {step}: iterator {i}: nth({k}) from index {m}: expected the tag at offset {}, got {got:?}", w.items[target].off));
+                    }
+                    model[i] = Some(target + 1);
+                } else {
+                    if got != Some(None) {
+                        return Err(format!("step {step}: iterator {i}: nth({k}) from index {m} of {} items: expected None, got {got:?}", w.items.len()));
+                    }
+                    model[i] = Some(w.items.len());
+                }
+            }
+            Op::Count(i) | Op::Last(i) => {
+                if real.is_empty() {
+                    continue;
+                }
+                let i = *i as usize % real.len();
+                let (Some(r), Some(m)) = (real[i].as_ref(), model[i]) else { continue };
+                let m = m.min(w.items.len());
+                let must_panic = w.panic_at.map_or(false, |p| p >= m);
+                if let Op::Count(_) = op {
+                    let got = mb2_model::panics::catch(|| r.clone().count());
+                    let want = if must_panic { None } else { Some(w.items.len() - m) };
+                    if got != want {
+                        return Err(format!("step {step}: iterator {i}: clone().count() at index {m}: expected {want:?}, got {got:?}"));
+                    }
+                } else {
+                    let got = mb2_model::panics::catch(|| r.clone().last().map(|t| t as *const _ as *const u8 as usize - base));
+                    let want = if must_panic { None } else { Some(if m < w.items.len() { w.items.last().map(|x| x.off) } else { None }) };
+                    if got != want {
+                        return Err(format!("step {step}: iterator {i}: clone().last() at index {m}: expected {want:?}, got {got:?}"));
+                    }
+                }
+            }
+            Op::ModulesNth(k) => {
+                let k = (*k % 4) as usize;
+                let mut mods = Vec::new();
+                let mut must_panic = w.panic_at.is_some();
+                for it in w.items.iter().filter(|i| i.typ == 3) {
+                    if it.size < 16 {
+                        must_panic = true;
+                        break;
+                    }
+                    mods.push(it.off);
+                }
+                let got = mb2_model::panics::catch(|| mbi.module_tags().nth(k).map(|t| t as *const _ as *const u8 as usize - base));
+                // nth(k) only needs the walk up to the k-th module
+                if k < mods.len() {
+                    if got != Some(Some(mods[k])) {
+                        return Err(format!("step {step}: module_tags().nth({k}): expected the module at {}, got {got:?}", mods[k]));
+                    }
+                } else if must_panic {
+                    if got.is_some() {
+                        return Err(format!("step {step}: module_tags().nth({k}) must end in a controlled panic, got {got:?}"));
+                    }
+                } else if got != Some(None) {
+                    return Err(format!("step {step}: module_tags().nth({k}) of {} modules: expected None, got {got:?}", mods.len()));
+                }
+                if !must_panic {
+                    let c = mb2_model::panics::catch(|| mbi.module_tags().count());
+                    if c != Some(mods.len()) {
+                        return Err(format!("step {step}: module_tags().count(): expected {}, got {c:?}", mods.len()));
+                    }
+                }
+            }
             Op::Modules => {
                 let got = mb2_model::panics::catch(|| mbi.module_tags().map(|t| t as *const _ as *const u8 as usize - base).collect::<Vec<_>>());
                 let mut want = Vec::new();
@@ -227,6 +317,10 @@ fn hist_strategy(_: &Ctx) -> BoxedStrategy<HistCase> {
         2 => any::<u8>().prop_map(Op::Clone),
         1 => Just(Op::Fresh),
         1 => Just(Op::Modules),
+        2 => (any::<u8>(), any::<u8>()).prop_map(|(i, k)| Op::Nth(i, k)),
+        1 => any::<u8>().prop_map(Op::Count),
+        1 => any::<u8>().prop_map(Op::Last),
+        1 => any::<u8>().prop_map(Op::ModulesNth),
     ];
     (
         gen::mbi_spec(8, 1),
@@ -267,7 +361,7 @@ pub fn subs() -> Vec<Box<dyn Sub>> {
         }),
         Box::new(PropSub::<HistCase> {
             name: "histories",
-            rule: "up to 24 operations {next(i), clone(i), fresh, module_tags} over up to 4 iterators on one region; model = index into the reference walk; checks repeatability across clones/fresh iterators, exhaustion, panic step. Non-trivial = history with a clone taken mid-walk; distinct by (ops, region)",
+            rule: "up to 24 operations {next(i), clone(i), fresh, nth(i,k), clone(i).count(), clone(i).last(), module_tags, module_tags().nth(k)/count()} over up to 4 iterators on one region; model = index into the reference walk; checks repeatability across clones/fresh iterators, exhaustion, panic step. Non-trivial = history with a clone taken mid-walk; distinct by (ops, region)",
             profiles: Profiles::Both,
             quick: 30000,
             thorough: 2500000,
